@@ -108,6 +108,8 @@ func runTrace(env *core.Env, t Trace, verbose bool) bool {
 			ok = strings.Contains(s.obs.Norm(nil), a.Text)
 		case "obs_lacks":
 			ok = !strings.Contains(s.obs.Norm(nil), a.Text)
+		case "show_differs":
+			ok = s.obs.RawShow[a.Text] != o.obs.RawShow[a.Text]
 		case "read_fails":
 			ok = s.obs.Fail != ""
 		default:
